@@ -251,7 +251,7 @@ def run_pair(ctx, comp, cases, binname=None):
         flat.extend(c)
     binname = binname or ("e2e" if comp == "stack" else "corr")
     rc1, impl, e1 = run_bin(BINS[binname], [comp], flat)
-    rc2, model, e2 = run_bin(MODEL, [comp], flat)
+    rc2, model, e2 = run_bin(MODEL, [comp], [l.lstrip("!") for l in flat])  # '!' = run exclusively (harness only)
     if rc1 != 0 or len(impl) != len(flat):
         # the harness process died (abort, stack overflow): bisect to the offending case
         impl = impl + ["HARNESS-DIED"] * (len(flat) - len(impl))
